@@ -4,9 +4,9 @@ from checks import _prog
 ID = "C02"
 OP = "c02"
 VERSIONS = _prog.VERSIONS
-versions_for = _prog.versions_for
+versions_for = _prog.versions_for_any
 op_args = _prog.op_args
-strategy = _prog.strategy
+strategy = _prog.dense_strategy
 fixed_cases = _prog.fixed_cases
 RULE = ("case = program compiled on each of 3.7-3.10; for every code object (nested included) the flattened blocks of "
         "from_code(c) are compared position by position with an independent scan of co_code (cross-checked with dis): opname, "
